@@ -18,6 +18,7 @@ import (
 	"strconv"
 	"strings"
 	"sync"
+	"sync/atomic"
 	"syscall"
 	"time"
 
@@ -35,17 +36,52 @@ var c11Anchors = []string{"node/node_cmd_reg.go", "node/util.go", "node/keys.go"
 	"node/json.go", "node/geo.go", "node/ttl.go", "node/scan.go", "node/state_machine.go", "server/redis_api.go", "server/merge.go", "common/"}
 
 type childRun struct {
-	name    string
-	conf    childConf
-	variant string // "race" | "plain"
-	dir     string
-	cmd     *exec.Cmd
-	started time.Time
-	exitErr error
-	exited  bool
-	killed  bool // by our watchdog
-	result  *childResult
-	wall    time.Duration
+	name       string
+	conf       childConf
+	variant    string // "race" | "plain"
+	dir        string
+	cmd        *exec.Cmd
+	started    time.Time
+	exitErr    error
+	exited     bool
+	killed     bool // by our watchdog
+	result     *childResult
+	wall       time.Duration
+	logged     int
+	stdoutTail *tailWriter
+}
+
+// tailWriter keeps the last max bytes written and counts the recovered-panic
+// log lines of the connection path by command name.
+type tailWriter struct {
+	mu     sync.Mutex
+	buf    []byte
+	max    int
+	total  int64
+	counts map[string]int64
+}
+
+func (t *tailWriter) Write(p []byte) (int, error) {
+	t.mu.Lock()
+	defer t.mu.Unlock()
+	t.total += int64(len(p))
+	for _, m := range recoveredPanicRe.FindAllSubmatch(p, -1) {
+		t.counts[strings.ToLower(string(m[1]))]++
+	}
+	t.buf = append(t.buf, p...)
+	if len(t.buf) > 2*t.max {
+		t.buf = append([]byte(nil), t.buf[len(t.buf)-t.max:]...)
+	}
+	return len(p), nil
+}
+
+func (t *tailWriter) bytes() []byte {
+	t.mu.Lock()
+	defer t.mu.Unlock()
+	if len(t.buf) > t.max {
+		return t.buf[len(t.buf)-t.max:]
+	}
+	return t.buf
 }
 
 func (cr *childRun) stderrPath() string { return filepath.Join(cr.dir, "stderr-"+cr.conf.Mode+".log") }
@@ -66,15 +102,14 @@ func (cr *childRun) spawn() error {
 		return fmt.Errorf("child binary %s missing (run through ./check, which builds it): %v", bin, err)
 	}
 	cmd := exec.Command(bin, "--child", "c11-server", confPath)
-	so, err := os.OpenFile(cr.stdoutPath(), os.O_CREATE|os.O_WRONLY|os.O_APPEND, 0644)
-	if err != nil {
-		return err
-	}
+	// stdout = the server's log (every failing command is logged with its full
+	// argv): only its tail is kept, recovered-panic lines are counted on the fly
+	cr.stdoutTail = &tailWriter{max: 4 << 20, counts: map[string]int64{}}
 	se, err := os.OpenFile(cr.stderrPath(), os.O_CREATE|os.O_WRONLY|os.O_APPEND, 0644)
 	if err != nil {
 		return err
 	}
-	cmd.Stdout = so
+	cmd.Stdout = cr.stdoutTail
 	cmd.Stderr = se
 	cmd.Env = append(os.Environ(),
 		"GORACE=halt_on_error=0 exitcode=0 history_size=2 log_path="+filepath.Join(cr.dir, "race"),
@@ -82,11 +117,9 @@ func (cr *childRun) spawn() error {
 	cmd.SysProcAttr = &syscall.SysProcAttr{Pdeathsig: syscall.SIGKILL, Setpgid: true}
 	cr.started = time.Now()
 	if err := cmd.Start(); err != nil {
-		so.Close()
 		se.Close()
 		return err
 	}
-	so.Close()
 	se.Close()
 	cr.cmd = cmd
 	return nil
@@ -106,6 +139,9 @@ func (cr *childRun) wait(watchdog time.Duration) {
 	}
 	cr.exited = true
 	cr.wall = time.Since(cr.started)
+	if cr.stdoutTail != nil {
+		ioutil.WriteFile(cr.stdoutPath(), cr.stdoutTail.bytes(), 0644)
+	}
 	if keep := os.Getenv("VERIF_C11_KEEP"); keep != "" {
 		// debugging aid: keep the logs of every child
 		dst := filepath.Join(keep, cr.name+"-"+cr.conf.Mode)
@@ -134,6 +170,13 @@ func (cr *childRun) kill() {
 	}
 }
 
+// portClash: the child could not bind a port it had probed as free (another
+// process of this busy machine took it in between): a harness-level accident.
+func (cr *childRun) portClash() bool {
+	b, err := ioutil.ReadFile(cr.stderrPath())
+	return err == nil && bytes.Contains(b, []byte("address already in use"))
+}
+
 // died: the process ended without completing its work and we did not kill it.
 func (cr *childRun) died() bool {
 	return cr.exited && !cr.killed && (cr.result == nil || !cr.result.Done)
@@ -155,13 +198,21 @@ func killAllChildren() {
 }
 
 func runChild(cr *childRun, watchdog time.Duration) error {
-	if err := cr.spawn(); err != nil {
-		return err
+	for attempt := 0; ; attempt++ {
+		if err := cr.spawn(); err != nil {
+			return err
+		}
+		track(cr)
+		cr.wait(watchdog)
+		untrack(cr)
+		if attempt < 3 && cr.died() && cr.portClash() {
+			// start again (fresh ports); the stderr of the failed start is dropped
+			os.Remove(cr.stderrPath())
+			cr.exited, cr.result = false, nil
+			continue
+		}
+		return nil
 	}
-	track(cr)
-	cr.wait(watchdog)
-	untrack(cr)
-	return nil
 }
 
 // ---- the check -----------------------------------------------------------------
@@ -209,39 +260,71 @@ func runC11(c *vc.Ctx) error {
 	}
 
 	engines := []string{"mem", "pebble"}
+	// A lane runs `lives` children one after the other, each on a fresh data
+	// directory that is deleted when its verdicts are in: that bounds the
+	// scratch volume (WAL, engine files, command logs) of the thorough tier.
 	type plan struct {
 		cr       *childRun
 		watchdog time.Duration
+		lives    int
 	}
 	var plans []plan
-	mk := func(name, variant string, conf childConf, wd time.Duration) {
+	mk := func(name, variant string, conf childConf, wd time.Duration, lives int) {
 		conf.Seed = c.Seed
 		conf.Names = names
-		plans = append(plans, plan{&childRun{name: name, variant: variant, conf: conf, dir: filepath.Join(c.Scratch, name)}, wd})
+		plans = append(plans, plan{&childRun{name: name, variant: variant, conf: conf, dir: filepath.Join(c.Scratch, name)}, wd, lives})
 	}
 	if !c.Thorough() {
 		// ≈ 20 000 commands: 8 clients x 1500 (race child) + twin 4 workers x 6 rounds x (14 + 60 x ~2.7 x 2) + batch scenario
-		mk("fuzz0", "race", childConf{Mode: "fuzz", Index: 0, Engine: engines[int(c.Seed)%2], Clients: 8, PerConn: 1500, SnapCnt: 2500}, 10*time.Minute)
-		mk("twin0", "plain", childConf{Mode: "twin", Index: 1, Engine: engines[(int(c.Seed)+1)%2], Workers: 4, Rounds: 6, Cases: 60}, 10*time.Minute)
-		mk("batch0", "race", childConf{Mode: "batch", Index: 2, Engine: engines[int(c.Seed)%2], BatchN: 250}, 5*time.Minute)
+		mk("fuzz0", "race", childConf{Mode: "fuzz", Index: 0, Engine: engines[int(c.Seed)%2], Clients: 8, PerConn: 1500, SnapCnt: 2500}, 10*time.Minute, 1)
+		mk("twin0", "plain", childConf{Mode: "twin", Index: 1, Engine: engines[(int(c.Seed)+1)%2], Workers: 4, Rounds: 6, Cases: 60}, 10*time.Minute, 1)
+		mk("batch0", "race", childConf{Mode: "batch", Index: 2, Engine: engines[int(c.Seed)%2], BatchN: 250}, 5*time.Minute, 1)
 	} else {
-		// ≈ 10^6 commands over 8 children
+		// ≈ 10^6 commands: 5 fuzz lanes x 4 lives x 8 clients x 5000 + 2 twin lanes x 4 lives x 6 workers x 6 rounds x 150 cases
 		for i := 0; i < 5; i++ {
-			conf := childConf{Mode: "fuzz", Index: i, Engine: engines[(int(c.Seed)+i)%2], Clients: 8, PerConn: 20000, SnapCnt: 5000}
+			conf := childConf{Mode: "fuzz", Index: i, Engine: engines[(int(c.Seed)+i)%2], Clients: 8, PerConn: 5000, SnapCnt: 3000}
 			if i == 3 {
 				conf.ExpPol, conf.DataVer = "wait_compact", "value_header_v1"
 			}
-			mk(fmt.Sprintf("fuzz%d", i), "race", conf, 45*time.Minute)
+			mk(fmt.Sprintf("fuzz%d", i), "race", conf, 30*time.Minute, 4)
 		}
 		for i := 0; i < 2; i++ {
-			conf := childConf{Mode: "twin", Index: 10 + i, Engine: engines[(int(c.Seed)+i)%2], Workers: 6, Rounds: 24, Cases: 150}
+			conf := childConf{Mode: "twin", Index: 10 + i, Engine: engines[(int(c.Seed)+i)%2], Workers: 6, Rounds: 6, Cases: 150}
 			if i == 1 {
 				conf.ExpPol, conf.DataVer = "wait_compact", "value_header_v1"
 			}
-			mk(fmt.Sprintf("twin%d", i), "plain", conf, 45*time.Minute)
+			mk(fmt.Sprintf("twin%d", i), "plain", conf, 30*time.Minute, 4)
 		}
-		mk("batch0", "race", childConf{Mode: "batch", Index: 20, Engine: engines[int(c.Seed)%2], BatchN: 2000}, 20*time.Minute)
+		mk("batch0", "race", childConf{Mode: "batch", Index: 20, Engine: engines[int(c.Seed)%2], BatchN: 2000}, 20*time.Minute, 1)
 	}
+
+	// scratch guard: the whole check aborts (inconclusive) above 5 GB
+	guardStop := make(chan struct{})
+	atomic.StoreInt32(&scratchExceeded, 0)
+	var peakScratch int64
+	go func() {
+		t := time.NewTicker(4 * time.Second)
+		defer t.Stop()
+		for {
+			select {
+			case <-guardStop:
+				return
+			case <-t.C:
+				sz := dirSize(c.Scratch)
+				if sz > atomic.LoadInt64(&peakScratch) {
+					atomic.StoreInt64(&peakScratch, sz)
+				}
+				if sz > 5<<30 {
+					atomic.StoreInt32(&scratchExceeded, 1)
+					fmt.Printf("C11 scratch guard: %d MiB in %s, aborting the run\n", sz>>20, c.Scratch)
+					killAllChildren()
+				}
+			}
+		}
+	}()
+	defer func() {
+		close(guardStop)
+	}()
 
 	maxRelaunch := c.Pick(4, 12)
 	var avoidMu sync.Mutex
@@ -257,8 +340,49 @@ func runC11(c *vc.Ctx) error {
 		wg.Add(1)
 		go func(p plan) {
 			defer wg.Done()
-			cr := p.cr
+			for life := 0; life < p.lives; life++ {
+				if atomic.LoadInt32(&scratchExceeded) == 1 {
+					return
+				}
+				first := &childRun{name: p.cr.name, variant: p.cr.variant, conf: p.cr.conf, dir: p.cr.dir}
+				if life > 0 {
+					first.name = fmt.Sprintf("%s.%d", p.cr.name, life)
+					first.dir = filepath.Join(c.Scratch, first.name)
+					first.conf.Index = p.cr.conf.Index + 50*life
+				}
+				runLane(c, first, p.watchdog, names, maxRelaunch, &avoidMu, avoided, avoidedKinds)
+			}
+		}(p)
+	}
+	wg.Wait()
+	if atomic.LoadInt32(&scratchExceeded) == 1 {
+		return fmt.Errorf("scratch directory exceeded 5 GB: run aborted")
+	}
+	c.Ev.Set("peak_scratch_mib", atomic.LoadInt64(&peakScratch)>>20)
+	var av []string
+	for n := range avoided {
+		av = append(av, n)
+	}
+	sort.Strings(av)
+	for n := range avoidedKinds {
+		av = append(av, "mutation kind "+n)
+	}
+	c.Ev.Set("commands_left_out_after_they_killed_a_child", av)
+	flushAgg(c)
+	return nil
+}
+
+// runLane runs one child and, when it is killed by a command, its successors
+// (same remaining budget, the culprit left out), deleting every data
+// directory as soon as its verdicts are in.
+func runLane(c *vc.Ctx, cr *childRun, watchdog time.Duration, names []RegisteredCmd, maxRelaunch int, avoidMu *sync.Mutex, avoided, avoidedKinds map[string]bool) {
+	baseName := cr.name
+	{
+		{
 			for attempt := 0; ; attempt++ {
+				if atomic.LoadInt32(&scratchExceeded) == 1 {
+					return
+				}
 				avoidMu.Lock()
 				cr.conf.Avoid, cr.conf.AvoidKinds = nil, nil
 				for n := range avoided {
@@ -270,12 +394,18 @@ func runC11(c *vc.Ctx) error {
 				avoidMu.Unlock()
 				sort.Strings(cr.conf.Avoid)
 				sort.Strings(cr.conf.AvoidKinds)
-				if err := runChild(cr, p.watchdog); err != nil {
+				if err := runChild(cr, watchdog); err != nil {
 					c.Inconclusive(cr.name + ": " + err.Error())
+					return
+				}
+				if atomic.LoadInt32(&scratchExceeded) == 1 {
 					return
 				}
 				fmt.Printf("C11 child %s (%s, %s, %s) ended after %.0fs\n", cr.name, cr.conf.Mode, cr.variant, cr.conf.Engine, cr.wall.Seconds())
 				culprit := c11Judge(c, cr, names)
+				cr.logged = countLogLines(cr.dir)
+				// verdicts are in (witnesses carry what they need): free the disk
+				removeChildDirs(c.Scratch, cr.name)
 				if culprit == "" || culprit == "unknown" || attempt >= maxRelaunch || cr.conf.Mode == "batch" {
 					return
 				}
@@ -289,9 +419,9 @@ func runC11(c *vc.Ctx) error {
 				}
 				avoidMu.Unlock()
 				c.Ev.Count("children_relaunched_after_death", 1)
-				next := &childRun{name: fmt.Sprintf("%s+%d", p.cr.name, attempt+1), variant: cr.variant, conf: cr.conf, dir: filepath.Join(c.Scratch, fmt.Sprintf("%s+%d", p.cr.name, attempt+1))}
+				next := &childRun{name: fmt.Sprintf("%s+%d", baseName, attempt+1), variant: cr.variant, conf: cr.conf, dir: filepath.Join(c.Scratch, fmt.Sprintf("%s+%d", baseName, attempt+1))}
 				next.conf.Index = cr.conf.Index + 1000
-				logged := countLogLines(cr.dir)
+				logged := cr.logged
 				switch cr.conf.Mode {
 				case "fuzz":
 					next.conf.PerConn = cr.conf.PerConn - logged/maxInt(1, cr.conf.Clients)
@@ -310,20 +440,39 @@ func runC11(c *vc.Ctx) error {
 				}
 				cr = next
 			}
-		}(p)
+		}
 	}
-	wg.Wait()
-	var av []string
-	for n := range avoided {
-		av = append(av, n)
+}
+
+// scratchExceeded is set by the scratch guard of runC11: children are being
+// killed by the harness, nothing that ends from now on is judged.
+var scratchExceeded int32
+
+// removeChildDirs deletes the directory of a child and of its helpers
+// (-shrinkN, -bombconfirmN, ...), which all start with the child's name.
+func removeChildDirs(scratch, name string) {
+	ds, _ := filepath.Glob(filepath.Join(scratch, name+"*"))
+	for _, d := range ds {
+		base := filepath.Base(d)
+		if base == name || strings.HasPrefix(base, name+"-") {
+			os.RemoveAll(d)
+		}
 	}
-	sort.Strings(av)
-	for n := range avoidedKinds {
-		av = append(av, "mutation kind "+n)
-	}
-	c.Ev.Set("commands_left_out_after_they_killed_a_child", av)
-	flushAgg(c)
-	return nil
+}
+
+func dirSize(dir string) int64 {
+	var total int64
+	filepath.Walk(dir, func(_ string, info os.FileInfo, err error) error {
+		if err == nil && info != nil && !info.IsDir() {
+			if st, ok := info.Sys().(*syscall.Stat_t); ok {
+				total += st.Blocks * 512 // allocated blocks: preallocated files count in full
+			} else {
+				total += info.Size()
+			}
+		}
+		return nil
+	})
+	return total
 }
 
 func maxInt(a, b int) int {
@@ -466,10 +615,13 @@ func mergeChildEvidence(c *vc.Ctx, cr *childRun) {
 		evAgg.errPairs[k] += v
 	}
 	// recovered panics of the connection path, by command, from the server log
-	if b, err := ioutil.ReadFile(cr.stdoutPath()); err == nil {
-		for _, m := range recoveredPanicRe.FindAllSubmatch(b, -1) {
-			evAgg.recovered[strings.ToLower(string(m[1]))]++
+	if cr.stdoutTail != nil {
+		cr.stdoutTail.mu.Lock()
+		for k, v := range cr.stdoutTail.counts {
+			evAgg.recovered[k] += v
 		}
+		c.Ev.Count("server_log_bytes_seen", cr.stdoutTail.total)
+		cr.stdoutTail.mu.Unlock()
 	}
 	evAgg.Unlock()
 	switch cr.conf.Mode {
@@ -640,6 +792,9 @@ func lastCommandsHuman(dir string, perClient int) []string {
 // attribute the death to a command and shrink the witness by replaying
 // candidates against fresh children.
 func c11ProcessDied(c *vc.Ctx, cr *childRun, names []RegisteredCmd) string {
+	if atomic.LoadInt32(&scratchExceeded) == 1 {
+		return ""
+	}
 	c.Ev.Count("children_died", 1)
 	all := readLog(cr.dir)
 	// in flight = the last logged command of every client
@@ -734,7 +889,7 @@ func c11ProcessDied(c *vc.Ctx, cr *childRun, names []RegisteredCmd) string {
 	cands := make([]cand, len(inflight))
 	var wg sync.WaitGroup
 	for i, ll := range inflight {
-		if i >= 10 {
+		if i >= 6 {
 			break
 		}
 		wg.Add(1)
@@ -810,6 +965,9 @@ func c11ProcessDied(c *vc.Ctx, cr *childRun, names []RegisteredCmd) string {
 		summary += "single command that kills a fresh server: " + HumanArgv(argv)
 	} else {
 		summary += fmt.Sprintf("no single in-flight command reproduces it alone; in flight: %v", lastCommandsHuman(cr.dir, 1))
+	}
+	if atomic.LoadInt32(&scratchExceeded) == 1 {
+		return ""
 	}
 	c.Violation(sig, summary, w)
 	if strings.Contains(panicLine, "is not valid UTF-8") {
@@ -1073,6 +1231,9 @@ func replayTwinCase(c *vc.Ctx, sig, engine string, cmds [][]string, badIdx int) 
 // the suspect; it is confirmed by replaying it alone on a fresh server, and the
 // restart on the same data directory tells whether the entry poisons the log.
 func c11MemBomb(c *vc.Ctx, cr *childRun, names []RegisteredCmd) string {
+	if atomic.LoadInt32(&scratchExceeded) == 1 {
+		return ""
+	}
 	c.Ev.Count("children_ended_by_memory_guard", 1)
 	mb := cr.result.MemBomb
 	cands := mb.candidates(4)
